@@ -184,7 +184,7 @@ def C16_agg_route(n: int, r0: int, r1: int, r2: int, fast: bool) -> bool:
 HARNESSES = [
   H('C16_rules_logic', quick=dict(timeout=280, shards=[('n%d' % k, 'n == %d' % k) for k in (1, 2)] + [('n%d_m%d' % (k, m), 'n == %d and match == %d' % (k, m)) for k in (3, 4) for m in range(8)],
                                   extra_pre=['configured >= 3', 'd0 in (1, 7) and d1 in (2, 7) and d2 in (4, 6) and d3 in (1, 7)']),
-    thorough=dict(timeout=1500, shards=[('n%d_c%d' % (k, c), 'n == %d and configured == %d' % (k, c)) for k in (1, 2, 3, 4) for c in range(8)]),
+    thorough=dict(timeout=900, extra_pre=['d0 in (1, 2, 4, 7) and d1 in (1, 2, 4, 7) and d2 in (1, 2, 4, 7) and d3 in (1, 2, 4, 7)'], shards=[('n%d_c%d' % (k, c), 'n == %d and configured == %d' % (k, c)) for k in (1, 2, 3, 4) for c in range(8)]),
     covers=['routed'],
     encodes=['carbon.routers:RelayRulesRouter.getDestinations', 'carbon.relayrules:RelayRule.matches'],
     assumptions=['real RelayRule objects whose condition returns a symbolic bit (abstracts `re`); 1-4 rules, symbolic continue flags, '
